@@ -172,6 +172,15 @@ func ProcessDeposit(spec *common.Spec, epc *common.EpochsContext, state common.B
 		} else {
 			epc.ValidatorPubkeyCache = pc
 		}
+		// Keep the cached effective balances in line with the registry, like a context built from this state.
+		if uint64(len(epc.EffectiveBalances)) == uint64(valIndex) {
+			effBalance := balance - (balance % spec.EFFECTIVE_BALANCE_INCREMENT)
+			if effBalance > spec.MAX_EFFECTIVE_BALANCE {
+				effBalance = spec.MAX_EFFECTIVE_BALANCE
+			}
+			// cloned contexts share the slice: never append in place
+			epc.EffectiveBalances = append(epc.EffectiveBalances[:valIndex:valIndex], effBalance)
+		}
 	} else {
 		// Increase balance by deposit amount
 		bals, err := state.Balances()
